@@ -79,7 +79,7 @@ pub fn execute(p: &P, seed: u64) -> RunOut {
     cfg.notify_down_members = p.notify_down;
     let ids: Vec<SimId> = (0..p.n).map(|i| SimId::new(i as u16 + 1, GEN)).collect();
     let mut ds: Vec<Driver> = (0..p.n)
-        .map(|i| Driver::new(Setup { id: ids[i], cfg: cfg.clone(), codec: p.codec, policy: p.policy, hcfg: HandlerCfg::default_cfg(), rng_seed: crate::prng::mix2(seed, i as u64) }))
+        .map(|i| Driver::new(Setup { id: ids[i], cfg: cfg.clone(), codec: p.codec, policy: p.policy, hcfg: HandlerCfg::default_cfg(), rng_seed: crate::prng::mix2(seed, i as u64), acc_twin: false }))
         .collect();
     // mutual knowledge; whatever these calls send is discarded (the exchange starts afterwards)
     for a in 0..p.n {
